@@ -620,6 +620,11 @@ class GPT:
             tmplist.append(part.record())
         part_data = b''.join(tmplist)
 
+        # The header declares num_parts entries of 128 bytes each, and the
+        # partition entries CRC covers that whole array (UEFI 5.3.2), not just
+        # the entries in use; so add the "empty" partitions before the CRC.
+        part_data += b'\x00' * (self.header.num_parts - len(self.parts)) * 128
+
         if self.is_primary:
             outlist = [self.header.record(crc32(part_data))]
             if self.apm_parts:
@@ -629,12 +634,8 @@ class GPT:
                 pad = b'\x00' * (2048 - len(raw))
                 outlist.extend([raw, pad])
             outlist.append(part_data)
-            # Write out all of the "empty" partitions.
-            outlist.append(b'\x00' * (self.header.num_parts - len(self.parts)) * 128)
         else:
             outlist = [part_data]
-            # Write out all of the "empty" partitions.
-            outlist.append(b'\x00' * (self.header.num_parts - len(self.parts)) * 128)
             outlist.append(self.header.record(crc32(part_data)))
 
         return b''.join(outlist)
